@@ -254,3 +254,10 @@ def run(ctx):
         if len(ctx.cov["samples"]) < 4:
             ctx.sample({"seed": rec["seed"], "mode": rec["mode"], "events": rec["events"], "recovery_build_ran": rec.get("decisions")})
     ctx.validated(sum(1 for r in recs if not r.get("rejected") and not r["violations"]))
+    # tie of the model the crash theorems are about: its micro-op sequences (every prefix of which is a crash
+    # image in the theorems) are the real builder's persistent-state operations, prunes and script runs
+    from props import c01
+    seeds = [ctx.rng.randrange(1 << 30) for _ in range(ctx.n(3, 25))]
+    with ThreadPoolExecutor(max_workers=3) as ex:
+        recs2 = list(ex.map(c01.one_history, [(s_, 3) for s_ in seeds]))
+    c01.model_correspondence(ctx, recs2, "c05m")
